@@ -1,0 +1,39 @@
+//go:build verif
+
+package engine
+
+import myraft "github.com/feichai0017/NoKV/raft"
+
+// Verification-only wrappers exposing the raft WAL payload codecs (the record
+// payloads written by WALStorage.Append / SetHardState / ApplySnapshot and parsed
+// again on replay).  Add-only; compiled with -tags verif.
+
+// VerifEncodeRaftEntries exposes encodeRaftEntries.
+func VerifEncodeRaftEntries(groupID uint64, entries []myraft.Entry) ([]byte, error) {
+	return encodeRaftEntries(groupID, entries)
+}
+
+// VerifDecodeRaftEntries exposes decodeRaftEntries.
+func VerifDecodeRaftEntries(data []byte) (uint64, []myraft.Entry, error) {
+	return decodeRaftEntries(data)
+}
+
+// VerifEncodeRaftHardState exposes encodeRaftHardState.
+func VerifEncodeRaftHardState(groupID uint64, st myraft.HardState) ([]byte, error) {
+	return encodeRaftHardState(groupID, st)
+}
+
+// VerifDecodeRaftHardState exposes decodeRaftHardState.
+func VerifDecodeRaftHardState(data []byte) (uint64, myraft.HardState, error) {
+	return decodeRaftHardState(data)
+}
+
+// VerifEncodeRaftSnapshot exposes encodeRaftSnapshot.
+func VerifEncodeRaftSnapshot(groupID uint64, snap myraft.Snapshot) ([]byte, error) {
+	return encodeRaftSnapshot(groupID, snap)
+}
+
+// VerifDecodeRaftSnapshot exposes decodeRaftSnapshot.
+func VerifDecodeRaftSnapshot(data []byte) (uint64, myraft.Snapshot, error) {
+	return decodeRaftSnapshot(data)
+}
